@@ -29,7 +29,8 @@ RULE = ("generated programs (3-7 functions over two modules of one package: meme
         '; rounds 7-9: failing calls inside / after try blocks, closure-cell factory products, decorators with arguments and decorators without functools.wraps, weighted alias calls with aliases exchanging their targets, set constants of bytes / tuples, string constants inside generator expressions and lambdas of a body, lambda helpers on continuation lines'
         '; rounds 10-11: plain helpers and lambdas as default values, parameter names exchanged under keyword calls, module-level partial clones with an edited bound argument'
         '; round 12: a helper re-executed reading a new variable, then the variable changes'
-        '; round 13: a variable read only beneath a memento callee, caller asked first')
+        '; round 13: a variable read only beneath a memento callee, caller asked first'
+        '; round 14: hidden calls through a module-level registry of handlers; eight hand-written programs with imports inside a function body (known finding K2)')
 ASSUMPTIONS = ["expected values come from running Python on the same source with memento_function = identity",
                "UndeclaredDependencyError is an accepted outcome (and counted)",
                "hidden dynamic calls target memento functions only; hidden variable reads, helpers in other packages, "
